@@ -48,11 +48,15 @@ Law(inv, total) ==
 
 Invs(kinds, n) == UNION {[1..k -> kinds] : k \in 0..n}
 
-Run(nFull, nSmall) ==
-  /\ \A inv \in Invs(Kinds(Chain, Classes), nFull) \cup Invs(Kinds(Chain, {"match", "fails-req"}), nSmall) :
+\* three families: every class (short), match / fails-req (medium), and all-matching inventories up to
+\* nMatch artifacts - the ones where maximality, duplicates and incomparable versions decide everything
+Run(nFull, nSmall, nMatch) ==
+  /\ \A inv \in Invs(Kinds(Chain, Classes), nFull) \cup Invs(Kinds(Chain, {"match", "fails-req"}), nSmall)
+                \cup Invs(Kinds(Chain, {"match"}), nMatch) :
        /\ Law(inv, TRUE)
        /\ (EmitTR => PrintT(<<"IV", ToJson([total |-> TRUE, inv |-> inv, acceptable |-> Acceptable(inv)])>>))
-  /\ \A inv \in Invs(Kinds(Versions, Classes), nFull) \cup Invs(Kinds(Versions, {"match", "fails-req"}), nSmall) :
+  /\ \A inv \in Invs(Kinds(Versions, Classes), nFull) \cup Invs(Kinds(Versions, {"match", "fails-req"}), nSmall)
+                \cup Invs(Kinds(Versions, {"match"}), nMatch) :
        /\ Law(inv, FALSE)
        /\ (EmitTR => PrintT(<<"IV", ToJson([total |-> FALSE, inv |-> inv, acceptable |-> Acceptable(inv)])>>))
 
@@ -71,8 +75,8 @@ ChecksumCases ==
   \A s \in Shapes :
     PrintT(<<"CV", ToJson([shape |-> s, sha256 |-> ChecksumOk(s, "sha256", 64), sha512 |-> ChecksumOk(s, "sha512", 128)])>>)
 
-ASSUME CASE Mode = "q" -> Run(2, 4) /\ ChecksumCases
-         [] Mode = "t" -> Run(3, 5) /\ ChecksumCases
+ASSUME CASE Mode = "q" -> Run(2, 4, 6) /\ ChecksumCases
+         [] Mode = "t" -> Run(3, 5, 6) /\ ChecksumCases
          [] OTHER -> TRUE
 VARIABLE x
 Spec == x = 0 /\ [][UNCHANGED x]_x
